@@ -137,7 +137,7 @@ fn worker(args: &[String]) -> i32 {
                 }
                 let mut fresh: Vec<&Violation> = Vec::new();
                 for v in &out.violations {
-                    match findings::explain(&registry, &sc, v) {
+                    match findings::explain(&registry, &sc, v, &env.root_text) {
                         Some(f) => {
                             let e = rep.known.entry(f.id.clone()).or_insert((0, String::new()));
                             e.0 += 1;
